@@ -147,6 +147,10 @@ func Known(id string, cond bool)  {}
 func Unwind(n int)                {}
 func MapOrderAll()                {}
 
+// ForkIndex(true): from here on a symbolic slice/array index is split into one path per feasible
+// value instead of being expanded into an if-then-else over all elements (engine hint, no semantics).
+func ForkIndex(on bool) {}
+
 // Stub redirects calls of the named function (e.g. "time.Since") to f for the rest of the
 // path. Engine only: natively there is nothing to hook, so harnesses that use it are
 // confirmed by concrete re-execution inside the engine, not by native replay.
